@@ -841,6 +841,10 @@ def seq_term(x, kind=None):
     SEQ_IN_USE[0] = True
     if isinstance(x, SSeq):
         return x.term
+    if type(x).__name__ in ("MessageStr", "MessageBytes"):
+        # a placeholder for text whose content the engine did not model (an unsupported format specification):
+        # it may be passed around as a message, but its content must never enter a formula
+        raise Unsupported("content of a string formatted from symbolic data")
     if isinstance(x, (bytes, bytearray)):
         return seq_lit(list(x))
     if isinstance(x, memoryview):
